@@ -102,7 +102,12 @@ TABLE = {
              "untyped objects in three slots; configurations biased to the capacity boundaries reach 25 handles in quick and 52 in thorough, "
              "crossing the 3->6->12->24->48->96 doublings, and thorough adds 20,000 random behaviours of up to 60 operations over 40 handles. "
              "Every edge of every dumped state graph is replayed on the real classes from a real driver coroutine in both modes, with the "
-             "full representation compared after each operation.",
+             "full representation compared after each operation. The awaiting coroutine's own handle (co_await self()) takes part at every "
+             "position, inline and heap: construction, merge, move, pop, clear/destruction in coroutine mode, and co_await; the model requires "
+             "that it is queued and resumed exactly once, and the replay compares the driver's own resumption count at every step (the pre-fix "
+             "behaviour, /repo 283e427, is rejected by NoDoubleResume as a self-test). Typed histories are replayed with payload int and with a "
+             "move-tracking payload: reads by conversion, const conversion and co_await occur in every order, each read must return the "
+             "attached, intact value, and only whole-object C++ moves may leave a value moved-from.",
         note="bounds: <=3 objects; <=5 handles exhaustive for any history length (6 in TLC-only runs); typed histories <=5 operations; boundary-biased "
              "histories <=7 operations over <=52 handles; each handle handed in once (self-merge / own handle in the list excluded); TCB: TLC, g++ 12 "
              "coroutine codegen, the replayer's probe/projection and its operator new[] counters; dummy coroutines do not re-enter the suspend "
